@@ -1,4 +1,4 @@
-\* pure facet: every sequence of <= 3 entries over power {1,2,3,4,9} x ts 0..2 x (price 1..4 | unavail | unsupp)
+\* pure facet (thorough): every sequence of <= 3 entries over power {1,2,3,4,9} x ts 0..2 x (price 1..4 | unavail | unsupp)
 CONSTANTS
   Val = {v1}
   Stranger = {}
@@ -17,6 +17,7 @@ CONSTANTS
   ToffSet = {0}
   MaxH = 0
   MaxN = 3
+  AllOrders = FALSE
   PPowerSet = {1, 2, 3, 4, 9}
   PTsSet = {0, 1, 2}
   PPriceSet = {1, 2, 3, 4}
